@@ -147,7 +147,7 @@ def _chunks(lst, n):
 
 
 def run_property(prop_id, tier, modname, level="other", explanation="", assumptions=None, outside=None,
-                 replay_path=None, only=None):
+                 replay_path=None, only=None, exhaustive=False):
     t_start = time.time()
     seed = int(os.environ.get("VERIF_SEED", "0") or 0)
     mod = importlib.import_module(modname)
@@ -343,7 +343,7 @@ def run_property(prop_id, tier, modname, level="other", explanation="", assumpti
                            for ob in obs},
         "outside_the_claim": outside or [],
         "known_findings_rederived": sorted(known_hits),
-        "exhaustive": False,
+        "exhaustive": bool(exhaustive),
     }
     if level == "model_checking":
         st = sum((R["custom"] or {}).get("states", 0) for R in results.values())
